@@ -17,7 +17,13 @@ import (
 	"time"
 )
 
-const VerifDir = "/verif"
+// VerifDir is the root of the verification tree (set by bin/check from its own location).
+var VerifDir = func() string {
+	if d := os.Getenv("VERIF_DIR"); d != "" {
+		return d
+	}
+	return "/verif"
+}()
 
 // Infra is panicked with to abort a run for an infrastructure reason (exit 2).
 type Infra struct{ Msg string }
